@@ -122,3 +122,32 @@ def rule_stack_guard(mod, rep):
         for prec, f in fam(mod, pat):
             n = sum(1 for s in f.insts() if s.op == "store" and any(addr_is_field_cell(f, s, x, "LU_stack_t") for x in ("top1", "top2", "used")))
             rep.note("O7': %s adjusts the user stack at %d store sites (alignment / expansion); only the expansion amounts are tested with StackFull" % (f.name, n))
+
+
+def rule_stack_relative(mod, rep):
+    """worker threads may only move the shared user stack by their own request"""
+    from .lock import worker_context
+    rep.rule("STACK-REL", "in worker context (everything reachable from p?gstrf_thread) every store to stack.top1 / stack.top2 / stack.used is a relative update "
+             "(old value of the same cell +/- an amount that does not depend on another stack field): a worker never resets the shared stack to an absolute position "
+             "or by an amount computed from the whole stack, which would release other threads' blocks", floor=20)
+    wc = worker_context(mod)
+    for name in sorted(wc):
+        f = mod.funcs.get(name)
+        if f is None:
+            continue
+        for s in f.insts():
+            if s.op != "store":
+                continue
+            fld = None
+            for x in ("top1", "top2", "used"):
+                if addr_is_field_cell(f, s, x, "LU_stack_t"):
+                    fld = x
+            if not fld:
+                continue
+            rep.scope([name])
+            lds = expr_loads(f, s.ops[0])
+            own = [l for l in lds if addr_is_field_cell(f, l, fld, "LU_stack_t")]
+            other = [l for l in lds if any(addr_is_field_cell(f, l, y, "LU_stack_t") for y in ("size", "top1", "top2", "used", "array") if y != fld)]
+            rep.check(bool(own) and not other, "STACK-REL", "%s#%s@%d" % (name, fld, s.ln), "relative update of stack.%s" % fld,
+                      "a worker thread sets stack.%s %s: this releases / overwrites the blocks other threads still own in the shared user work space" % (
+                          fld, "from other stack fields (%s)" % ", ".join(sorted(set(fmt_paths(f, f.addr_paths(l)) for l in other))) if other else "to an absolute value"), s.loc, name)
